@@ -130,7 +130,16 @@ theorem utf8LenF_pos (s : List Byte) (n : Nat) (h : utf8LenF s = some n) (hs : s
   all_goals first | (simp at h; done) | (simp at h; subst h; simp) | skip
   all_goals first | (exact absurd rfl hs) | (simp at h; try (obtain ⟨_, h⟩ := h); try subst h; simp)
 
-def utf8Len : MbLen := ⟨utf8LenF, utf8LenF_pos, utf8LenF_le⟩
+theorem utf8LenF_ascii (c : Byte) (r : List Byte) (h : c < 128) : utf8LenF (c :: r) = some 1 := by
+  simp [utf8LenF, h]
+
+theorem utf8LenF_cont (s : List Byte) (n : Nat) (h : utf8LenF s = some n) : ∀ b ∈ (s.take n).drop 1, 128 ≤ b := by
+  unfold utf8LenF at h
+  repeat' split at h
+  all_goals first | (simp at h; done) | (simp at h; subst h; simp) | skip
+  all_goals (simp at h; obtain ⟨hc, h⟩ := h; subst h; simp; omega)
+
+def utf8Len : MbLen := ⟨utf8LenF, utf8LenF_pos, utf8LenF_le, utf8LenF_ascii, utf8LenF_cont⟩
 
 abbrev V := Value Float
 
@@ -296,17 +305,22 @@ def hasBadMbString (v : V) : Bool := anyVal (fun | .str s => badMb s | _ => fals
 def cmpRestored (what : String) (orig got : V) : List String :=
   let e := expectOf orig
   if pv true e == pv true got then []
-  else if pv true (crToLf e) == pv true got then [s!"roundtrip cr-became-lf {what}"]
+  else if pv true (crToLf e) == pv true got then [s!"roundtrip-cr-became-lf {what}"]
   else if (match orig, got with | .real x, .int 0 => !isFinite x | _, _ => false) then
-    [s!"roundtrip nonfinite-float-became-0 {what}"]
-  else if hasSubnormal orig then [s!"roundtrip subnormal-float-differs {what}"]
-  else if hasCollidingFloatKeys orig then [s!"roundtrip float-keys-print-alike {what}"]
-  else [s!"roundtrip value-differs {what} expected {pv true e} got {pv true got}"]
+    [s!"roundtrip-nonfinite-float-became-0 {what}"]
+  -- a class whose restore fails comes back as 0 without an error (restore_variable has no ROB_CLASS_ERROR branch)
+  else if (match orig, got with | .cls _, .int 0 => hasNonFinite orig | _, _ => false) then
+    [s!"roundtrip-nonfinite-float-restore-error {what}"]
+  else if (match orig, got with | .cls _, .int 0 => hasBadMbString orig | _, _ => false) then
+    [s!"roundtrip-invalid-multibyte-restore-error {what}"]
+  else if hasSubnormal orig then [s!"roundtrip-subnormal-float-differs {what}"]
+  else if hasCollidingFloatKeys orig then [s!"roundtrip-float-keys-print-alike {what}"]
+  else [s!"roundtrip-value-differs {what} expected {pv true e} got {pv true got}"]
 
 def cmpRestoreError (what : String) (orig : V) : List String :=
-  if isContainer orig ∧ hasNonFinite orig then [s!"roundtrip nonfinite-float-restore-error {what}"]
-  else if isContainer orig ∧ hasBadMbString orig then [s!"roundtrip invalid-multibyte-restore-error {what}"]
-  else [s!"roundtrip restore-error {what}"]
+  if hasNonFinite orig then [s!"roundtrip-nonfinite-float-restore-error {what}"]
+  else if isContainer orig ∧ hasBadMbString orig then [s!"roundtrip-invalid-multibyte-restore-error {what}"]
+  else [s!"roundtrip-restore-error {what}"]
 
 /-! ## the judge -/
 
@@ -358,8 +372,8 @@ def fileChecks (hex : String) : List String :=
   let bytes := hexBytes hex.toList
   let lines := (splitLines bytes).map (fun l => String.ofList (l.map Char.ofNat))
   lines.foldl (fun acc l =>
-    if l.startsWith "vs " ∨ l.startsWith "vis " then acc ++ [s!"persisted static-variable {l}"]
-    else if l.startsWith "vo " ∧ l != "vo " then acc ++ [s!"persisted object-reference {l}"]
+    if l.startsWith "vs " ∨ l.startsWith "vis " then acc ++ [s!"persisted-static-variable {l}"]
+    else if l.startsWith "vo " ∧ l != "vo " then acc ++ [s!"persisted-object-reference {l}"]
     else acc) []
 
 def expectedAfterRestore (s : JState) (noclear : Bool) : Option (List JVar) :=
@@ -385,7 +399,7 @@ def judgeCmd (s : JState) (cmd : String) (impl : List String) : JState × List S
       | some (l, r) =>
         if l.startsWith "save " ∨ l == "save" then judgeRestored s vtxt v r
         else if l == "saveerr" then
-          (if depthOf v > maxDepth then s else s.flag [s!"save refused {vtxt}"], r)
+          (if depthOf v > maxDepth then s else s.flag [s!"save-refused {vtxt}"], r)
         else (s.flag [s!"trace unexpected {l}"], r)
       | none => (s.flag [s!"trace missing-save {vtxt}"], [])
   | "rtl" :: fn :: args =>
@@ -397,6 +411,11 @@ def judgeCmd (s : JState) (cmd : String) (impl : List String) : JState × List S
     | some v, some (l, r) =>
       if l.startsWith "save " ∨ l == "save" then judgeRestored s cmd v r else (s.flag [s!"trace unexpected {l}"], r)
     | _, _ => (s, impl)
+  | ["rx", vtxt, _] =>
+    -- `rx <value> <hex>`: the text is a valid save text of <value> (made by the generator): it must restore to it
+    match parseValue vtxt with
+    | some v => judgeRestored s cmd v impl
+    | none => (s, impl)
   | "rv" :: _ =>
     match nextLine impl with
     | some (l, r) =>
@@ -412,7 +431,7 @@ def judgeCmd (s : JState) (cmd : String) (impl : List String) : JState × List S
     match nextLine impl with
     | some (l, r) =>
       let s1 := if l == "so 1" then { s with snap := some (s.live, z != "0"), hasFile := true }
-                else s.flag [s!"save-object failed {l}"]
+                else s.flag [s!"save-object-failed {l}"]
       match nextLine r with
       | some (fl, r2) =>
         match toks fl with
@@ -439,7 +458,7 @@ def judgeCmd (s : JState) (cmd : String) (impl : List String) : JState × List S
               -- statics are never touched by a restore
               let stat := (s.live.zip gotL).foldl (fun (acc : List String) (p : JVar × V) =>
                 if p.1.isStatic ∧ pv false (expectOf p.1.val) != pv false p.2 then
-                  acc ++ [s!"static-variable changed-by-restore {p.1.name}"] else acc) []
+                  acc ++ [s!"static-variable-changed-by-restore {p.1.name}"] else acc) []
               match expectedAfterRestore s (nc != "0"), l with
               | some ex, "ro 1" =>
                 let vs := (ex.zip gotL).foldl (fun (acc : List String) (p : JVar × V) => acc ++ cmpRestored p.1.name p.1.val p.2) []
@@ -450,7 +469,7 @@ def judgeCmd (s : JState) (cmd : String) (impl : List String) : JState × List S
                   if !lv.isStatic ∧ isContainer lv.val ∧ (hasNonFinite lv.val ∨ hasBadMbString lv.val) then
                     acc ++ cmpRestoreError lv.name lv.val
                   else acc) []
-                ((s'.flag stat).flag (if known.isEmpty then [s!"roundtrip restore-object-failed {l}"] else known), r2)
+                ((s'.flag stat).flag (if known.isEmpty then [s!"roundtrip-restore-object-failed {l}"] else known), r2)
               | none, _ => (s'.flag stat, r2)
           | _ => (s.flag [s!"trace vars-unparsable {vl}"], r2)
         | _ => (s.flag [s!"trace unexpected {vl}"], r2)
@@ -466,10 +485,10 @@ def judgeCmd (s : JState) (cmd : String) (impl : List String) : JState × List S
         | [_, k, st, _] =>      -- cp k state tmp=
           if k.startsWith "n=" then acc
           else if st == "old" ∨ st == "new" ∨ (st == "none" ∧ !s.hasFile) then acc
-          else acc ++ [s!"atomic save-file-{st} at-crash-point {k}"]
+          else acc ++ [s!"atomic-save-file-{st} at-crash-point {k}"]
         | [_, k, ret, st, _] => -- cf k ret= state tmp=
           if (ret == "ret=1" ∧ st == "new") ∨ (ret != "ret=1" ∧ (st == "old" ∨ (st == "none" ∧ !s.hasFile))) then acc
-          else acc ++ [s!"atomic save-file-{st} after-failure {k} {ret}"]
+          else acc ++ [s!"atomic-save-file-{st} after-failure {k} {ret}"]
         | [_, k, "childcrash"] => acc ++ [s!"memory childcrash {k}"]
         | [_, _] => acc
         | _ => acc ++ [s!"trace unexpected {l}"]) []
